@@ -11,6 +11,41 @@ CHECKS = {
          "Every string of length <= 5 (quick) / <= 7 (thorough) over {a,space,',','=','\\\\'} in three argv spellings is compared with an independent reference parser (complete within that bound); beyond it, generated Unicode path/argument lists are rendered through the escaping function and must parse back exactly, in-process and through the real binary to a capturing generator. No counterexample within the bound and in N random cases; not a proof for longer strings.",
          "trusts the reference parser written from the statement (self-checked against the escaping function on every random case), clap's argv handling, and the fake generator's stdin capture",
          "DESIGN.md section 5, C19"),
+ "C02": ("proptest choice-sequence grammar generator x layout metamorphosis; observed AST == canonical model (reference resolver)",
+         "exploration",
+         "Well-formed multi-file programs are generated constructively from choice bytes and printed in 3 (quick) / 5 (thorough) token-level layouts each; after an error-free compile the program re-built from the AST through the public API must equal the abstract program field by field, for every layout. No counterexample in N generated programs of the stated distribution (class histogram in the evidence); not exhaustive.",
+         "trusts the generator/printer pair (a printer bug shows up as a failure, not as a silent pass), the reference resolver of C03 for the resolved form of named references, and the typed projection of the five built-in attributes",
+         "DESIGN.md section 5, C02"),
+ "C03": ("bounded-exhaustive scope arrangements + proptest alias chains against a reference name table / scope resolver; differential on accept/reject, bindings, error placement, find_element",
+         "exploration",
+         "All 746 496 arrangements of three nested module levels x same-named definition of every kind x 12 spellings x 8 positions x file orders (complete in the thorough tier, every 5th in quick) plus random alias chains and programs are resolved by an independent reference model; the compiler must accept exactly when the model resolves, bind to the designated entity with the accumulated attributes, and otherwise report an admissible code inside the offending reference.",
+         "trusts the reference resolver written from the statement; module/definition name collisions (F-15) are excluded",
+         "DESIGN.md section 5, C03"),
+ "C04": ("proptest programs with injected violations + bounded-exhaustive small-scope families, judged by an independent table-driven rule checker (both directions)",
+         "exploration",
+         "A reference checker implementing the whole rule catalogue recomputes the violated rules of every generated program (0..3 injections out of a 48-entry catalogue at boundary values, and five exhaustive small-scope families: tags/optional/compact over <= 3 members, stream placements, enum shapes, key types to depth 2, attribute x target). Well-formed <=> accepted, and every reported error code must belong to a rule the program violates. Complete within the small-scope families, sampled beyond.",
+         "trusts the reference rule checker (written from the statement and the language reference; validated by 0 disagreements on the pinned tree apart from the listed findings); which of several simultaneous violations is reported is not asserted",
+         "DESIGN.md section 5, C04"),
+ "C05": ("bounded-exhaustive graph enumeration (containment, alias, inheritance) with an SCC reference; chains validated through note spans",
+         "exploration",
+         "Every containment graph over <= 3 struct/enum nodes x kinds x 10 wrapper forms (complete), every edge set over 4 nodes (complete in thorough), random graphs to 10 nodes, every alias assignment over <= 4 aliases and every inheritance relation over <= 4 interfaces: E032 is reported iff a node lies on a cycle, every on-cycle node is named, every reported chain is a closed path of written fields; loops are rejected without crash.",
+         "trusts the SCC analysis and the printer's recorded field positions; dense DAGs with exponentially many paths are excluded (F-01f)",
+         "DESIGN.md section 5, C05"),
+ "C06": ("bounded-exhaustive line sequences and expression strings + constructive random files against a line-oriented reference interpreter",
+         "exploration",
+         "Every sequence of <= 4 (quick) / <= 5 (thorough, 6-7 strided) lines over a 21-form alphabet x all 8 -D subsets, every expression token string up to length 5/7 x 8 valuations, two-file leak sets, and constructively generated balanced files (nesting <= 5, CRLF, indentation, comments, diagnostics with positions) are interpreted by an independent reference; selected probes, their rows/columns and the presence of E002 must agree.",
+         "trusts the reference interpreter written from the statement and the documented expression grammar; with several malformed lines only one E002 on such a line is required",
+         "DESIGN.md section 5, C06"),
+ "C09": ("proptest programs x layouts; expected spans = token positions recorded by the printer; model-free regression family",
+         "exploration",
+         "The printer records the character position of every token and the token range of every element; after an error-free compile every span reachable through the public API (elements, identifiers, tags, values, attributes, type expressions, doc-comment parts) must be inside its file, ordered and tight in the sense of the statement, under layouts with tabs, CRLF and multi-byte characters.",
+         "trusts the printer's own position bookkeeping (characters, '\\n' as the only line break); lenient on escaped-identifier start, attribute inclusion in type spans and the exact end token, as listed in the evidence assumptions; diagnostics' spans for injected violations and snippet rendering are covered by C14/C03 partially (see DESIGN)",
+         "DESIGN.md section 5, C09"),
+ "C20": ("proptest programs; recording Visitor vs. traversal order derived from the abstract program",
+         "exploration",
+         "Every file of generated multi-file programs (anonymous types to depth 3, aliases of anonymous types across files) is walked with a recording visitor; the callback sequence must equal the sequence derived from the model: nothing skipped, nothing twice, containers first, type trees depth-first right after their owner.",
+         "trusts the generator and the canonical (resolved) form from the C03 reference resolver",
+         "DESIGN.md section 5, C20"),
 }
 
 NOT_YET = "check not built yet in this session (see DESIGN.md section 9 for the build order); will be claimed once its machinery is in place"
